@@ -145,6 +145,21 @@ def seq_nf(e):
     return None
 
 
+def _single_use(e):
+    """does the expression produce an iterator that is exhausted by one pass?"""
+    if isinstance(e, ast.GeneratorExp):
+        return True
+    if isinstance(e, ast.Call):
+        f = norm_text(e.func)
+        if f in ("reversed", "iter", "map", "zip", "filter", "enumerate"):
+            return True
+        if f in ("list", "tuple", "nn.ModuleList", "torch.nn.ModuleList", "sorted"):
+            return False
+    if isinstance(e, ast.Subscript) and isinstance(e.slice, ast.Slice):
+        return False
+    return False
+
+
 def _qual_of(node):
     names = []
     n = getattr(node, "_parent", None)
@@ -202,6 +217,19 @@ def order_rule(ctx):
                 res.fail(Finding("CMP-ORDER", fi.module, fi.qualname, path.ret_node, "%s must cascade the inputs with the context" % direction))
                 continue
             nf = seq_nf(fs)
+            # a sequence kept in an attribute: read through the constructor's value, and note
+            # whether what is stored can be iterated more than once
+            if nf is not None and nf[0].startswith("self.") and nf[0] != "self._transforms":
+                ai2 = p.attrs(cls).get(nf[0][5:])
+                if ai2 is not None and ai2.value is not None:
+                    inner = seq_nf(ai2.value)
+                    if inner is not None:
+                        if _single_use(ai2.value):
+                            res.fail(Finding("CMP-ORDER", fi.module, fi.qualname, path.ret_node, "%s iterates `%s`, which the constructor sets to `%s`: a single-use iterator -- the first call consumes it and every later call cascades nothing (returns its inputs with zero log-det)" % (direction, nf[0], norm_text(ai2.value)[:60]), construct="single-use iterator %s" % nf[0]))
+                            continue
+                        m2 = nf[2] if inner[2] == "id" else (inner[2] if nf[2] == "id" else None)
+                        if m2 is not None:
+                            nf = (inner[0].replace("transforms", "self._transforms") if inner[0] == "transforms" else inner[0], inner[1] != nf[1], m2)
             if nf is None or nf[0] != "self._transforms":
                 res.undecide("CompositeTransform.%s" % direction, "cannot decide the order of the cascaded sequence `%s`" % norm_text(fs)[:80])
                 continue
